@@ -275,6 +275,81 @@ func genFont(r *vlib.Rand, n int, pattern string, bad bool) *fontSpec {
 	return fs
 }
 
+// genLigFont: named base glyphs (by existing names or through the cmap), a few
+// component glyphs that have no name when the GSUB pass runs, and ligature
+// sets (Gsub4_1) with several ligatures per first glyph, longest first, whose
+// outputs are unnamed glyphs (now and then a named one).
+func genLigFont(r *vlib.Rand) *fontSpec {
+	letters := []string{"f", "i", "l", "t", "s"}
+	nb := r.Range(2, 5)    // named base glyphs 1..nb
+	nu := r.Range(1, 2)    // unnamed components nb+1..nb+nu
+	nsets := r.Range(1, 2) // first glyphs with a ligature set
+	var rows [][]ligSpec
+	var cov []covEntry
+	firsts := sortedSubset(r, allGids(nb+1)[1:], nsets)
+	nextOut := 1 + nb + nu
+	for si, fg := range firsts {
+		k := r.Range(2, 4)
+		row := make([]ligSpec, k)
+		for j := range row {
+			ln := r.Range(1, 3)
+			in := make([]int, ln)
+			for m := range in {
+				in[m] = r.Range(1, nb)
+			}
+			// an unnamed component, mostly after at least one named one
+			if r.Chance(1, 2) {
+				pos := r.Intn(ln)
+				if ln > 1 && r.Chance(3, 4) {
+					pos = r.Range(1, ln-1)
+				}
+				in[pos] = nb + r.Range(1, nu)
+			}
+			row[j] = ligSpec{in: in}
+		}
+		sort.SliceStable(row, func(a, b int) bool { return len(row[a].in) > len(row[b].in) })
+		for j := range row {
+			row[j].out = nextOut
+			nextOut++
+			if r.Chance(1, 10) {
+				row[j].out = r.Range(0, nb) // an output that already has a name
+			}
+		}
+		rows = append(rows, row)
+		cov = append(cov, covEntry{fg, si})
+	}
+	n := nextOut + r.Intn(2)
+	fs := &fontSpec{n: n, cmapFmt: "none", hasGsub: true}
+	fs.gsub = []subSpec{{kind: "g41", cov: cov, repl: rows}}
+	if r.Chance(1, 4) {
+		fs.gsub = append(fs.gsub, genSub(r, n, false))
+	}
+	if r.Chance(1, 4) {
+		fs.gsub = append([]subSpec{genSub(r, n, false)}, fs.gsub...)
+	}
+	byCmap := r.Bool()
+	existing := make([]string, n)
+	for g := 1; g <= nb; g++ {
+		if byCmap {
+			fs.cmap = append(fs.cmap, cmapEntry{int(letters[g-1][0]), g})
+		} else {
+			existing[g] = letters[g-1]
+		}
+	}
+	if byCmap {
+		fs.cmapFmt = vlib.Pick(r, []string{"f4", "f12"})
+		sort.Slice(fs.cmap, func(i, j int) bool { return fs.cmap[i].r < fs.cmap[j].r })
+		fs.kind = vlib.Pick(r, []string{"cid", "cff", "glyf"})
+		if fs.kind == "glyf" && r.Bool() {
+			existing = nil
+		}
+	} else {
+		fs.kind = vlib.Pick(r, []string{"cff", "glyf"})
+	}
+	fs.existing = existing
+	return fs
+}
+
 func addNames(run *vlib.Run, fs *fontSpec, labels ...string) {
 	line, impl, fail, sig := fs.exec()
 	eff := fs.effective()
@@ -485,6 +560,14 @@ func Gen(run *vlib.Run, seed uint64, tier string) {
 		}
 		p := vlib.Pick(rr, patterns)
 		addNames(run, genFont(rr, n, p, false), "stream:random", "pattern:"+p)
+	}
+
+	// (iii-b) ligature sets: one first glyph with 2-4 ligatures, longest first,
+	// some components without a name at that point, outputs without a name
+	nl := vlib.Count(tier, 250, 5000)
+	rl := r.Fork("ligsets")
+	for i := 0; i < nl; i++ {
+		addNames(run, genLigFont(rl), "stream:ligature-sets")
 	}
 
 	// (iv) malformed stream: references to glyphs the font does not have,
